@@ -14,7 +14,7 @@ World *g_world = nullptr;
 const char *rk_names[] = { "data", "data_ttl5", "data_ttl0", "nodata", "nodata_nosoa", "nxdomain", "nxdomain_nosoa", "servfail",
                            "refused", "notimp", "formerr_noopt", "formerr_opt", "tc", "malformed", "empty", "ck_none", "ck_valid",
                            "ck_valid2", "ck_wrongclient", "badcookie", "badcookie_bare", "cname_data", "data_mixed", "data_multi", "data_soa", "notauth" };
-const char *fg_names[] = { "wrongid", "wrongname", "wrongtype", "wrongclass", "caseflip", "wrongsrc", "othersock", "nocookie", "badclientcookie", "wrongsrc-framed" };
+const char *fg_names[] = { "wrongid", "wrongname", "wrongtype", "wrongclass", "caseflip", "wrongsrc", "othersock", "nocookie", "badclientcookie", "wrongsrc-framed", "nocookie-truncated" };
 const char *fs_names[] = { "socket", "setsockopt", "bind", "connect", "getsockname", "send_refused", "send_wouldblock", "send_short", "recv_reset", "send_eintr", "recv_eintr", "send_enobufs", "socket_eagain" };
 
 static std::string fmt(const char *f, ...)
@@ -300,6 +300,7 @@ static int s_close(ares_socket_t fd, void *ud)
     return -1;
   }
   s->nclose++;
+  w->last_close_seq = ++w->seq;
   if (!s->open) {
     w->violate("C10:sock:double-close", fmt("descriptor %d closed twice", fd));
     errno = EBADF;
@@ -631,6 +632,21 @@ void World::record_tx(VSock &s, const Bytes &msg)
     t.norder = s.norder_at_connect;
     memcpy(t.last_fail_us, s.last_fail_at_connect, sizeof t.last_fail_us);
   }
+  if (cfg->pending_write_cb && s.tcp && s.ntx > 0) {
+    // deferred-write mode: the frame was queued (and its server decided) when the library announced pending data, and
+    // reaches the wire at a later flush. One frame per announcement has a known decision moment; further ones do not.
+    if (pw_valid && pw_tx < 0 && pw_seq > last_close_seq) {
+      pw_tx          = t.id;
+      t.decision_seq = pw_seq;
+      memcpy(t.ref_fail, pw_ref_fail, sizeof t.ref_fail);
+      memcpy(t.order, pw_order, sizeof t.order);
+      t.norder = pw_norder;
+      memcpy(t.last_fail_us, pw_last_fail, sizeof t.last_fail_us);
+    } else {
+      t.batched = true;
+      if (pw_tx >= 0 && pw_tx < (int)txs.size()) txs[(size_t)pw_tx].batched = true;
+    }
+  }
   t.ev_index   = in_closure ? -1 : cur_ev;
   t.in_timer   = in_timer;
   t.in_closure = in_closure;
@@ -706,6 +722,13 @@ static void pending_write_cb(void *data)
 {
   World *w                  = (World *)data;
   w->pending_write_notified = true;
+  w->pw_valid               = true;
+  w->pw_tx                  = -1;
+  w->pw_seq                 = ++w->seq;
+  memcpy(w->pw_ref_fail, w->ref_fail, sizeof w->pw_ref_fail);
+  memcpy(w->pw_order, w->cfg_order, sizeof w->pw_order);
+  w->pw_norder = w->cfg_norder;
+  memcpy(w->pw_last_fail, w->ref_last_fail_us, sizeof w->pw_last_fail);
   w->log("pending_write_cb");
   w->W("pending_write_cb");
 }
@@ -1732,12 +1755,18 @@ void World::inject(int txid, int kind, bool forged, int mutation)
       }
       case FG_NOCOOKIE: break;
       case FG_BADCLIENTCOOKIE: break;
+      case FG_NOCOOKIE_TC: break;
     }
   }
   int rk = kind;
-  if (forged && mutation == FG_NOCOOKIE) rk = RK_CK_NONE;
+  if (forged && (mutation == FG_NOCOOKIE || mutation == FG_NOCOOKIE_TC)) rk = RK_CK_NONE;
   if (forged && mutation == FG_BADCLIENTCOOKIE) rk = RK_CK_WRONGCLIENT;
   pk.data = build_reply(use, rk, pk);
+  if (forged && mutation == FG_NOCOOKIE_TC && pk.data.size() > 3) {
+    // the cookie-less forgery marked truncated: with ARES_FLAG_IGNTC a truncated UDP answer is delivered as it is
+    pk.data[2] |= 0x02;
+    pk.tc = true;
+  }
   if (forged && mutation == FG_WRONGSRC_FRAMED) {
     // a datagram from a foreign address whose payload is a TCP-style frame: two length octets, then a response that
     // would match the query
@@ -1859,7 +1888,18 @@ void World::apply(const Ev &e)
   }
   pol_in.clear();
   if (cfg->eager_io && ch && !destroyed)
-    for (int k = 0; k < 6 && !ready_fds(false).empty(); k++) do_io(false);
+    for (int k = 0; k < 6 && (!ready_fds(false).empty() || (cfg->pending_write_cb && pending_write_notified)); k++) {
+      // an eager application also reacts to the pending-write announcement before anything else happens
+      if (cfg->pending_write_cb && pending_write_notified && e.k != EV_WRITECB && e.k != EV_FAULT) {
+        pending_write_notified = false;
+        in_lib                 = true;
+        ares_process_pending_write(ch);
+        in_lib = false;
+      }
+      if (!ready_fds(false).empty()) do_io(false);
+    }
+  // a decision snapshot taken at a pending-write announcement is only good within the event that took it
+  pw_valid = false;
 }
 
 void World::closure()
